@@ -134,6 +134,64 @@ def _attempt(job, loop_renames):
                 continue
             if o.kind != "cover":
                 vc.discharge(o, timeout_ms=c.solver_timeout_ms)
+                if o.status == "unknown":
+                    # both solvers gave up on  hyps & not goal.  Cheap falsification before calling it undecided: the
+                    # concrete input that was found to drive this path (its cover model) is a model of the path condition;
+                    # if it also satisfies every hypothesis of the obligation and makes the goal false, it IS a
+                    # counter-model (and goes to the native replay like any other).
+                    try:
+                        import z3 as _z3
+                        cm = next((x.model for x in obls if x.kind == "cover" and x.path_id == o.path_id and getattr(x, "model", None) is not None), None)
+                        if cm is not None and _z3.is_false(cm.eval(o.goal, model_completion=True)) and \
+                                all(_z3.is_true(cm.eval(h, model_completion=True)) for h in o.hyps):
+                            o.status, o.model, o.backend = "failed", cm, "z3 (cover model of the path falsifies the goal)"
+                            o.detail = (o.detail or "") + "; counter-model = the path's cover model"
+                    except Exception:
+                        pass
+                if o.status == "unknown":
+                    # second cheap falsification: fix the real-valued input constants of the GOAL to generic values (a few
+                    # random rationals in (0, 1)) and ask again - the query is then (nearly) ground.  Any model found
+                    # satisfies  hyps & not goal  and is therefore a genuine counter-model; finding none changes nothing.
+                    try:
+                        import z3 as _z3, random as _rnd
+                        from fractions import Fraction as _Fr
+
+                        def _consts(e, acc, seen):
+                            if e.get_id() in seen:
+                                return
+                            seen.add(e.get_id())
+                            if _z3.is_const(e) and e.decl().kind() == _z3.Z3_OP_UNINTERPRETED and e.sort().kind() == _z3.Z3_REAL_SORT:
+                                acc[e.decl().name()] = e
+                            for ch in e.children():
+                                _consts(ch, acc, seen)
+
+                        cs = {}
+                        _consts(o.goal, cs, set())
+                        rng = _rnd.Random(12345)
+                        for attempt in range(3):
+                            sol = _z3.Solver()
+                            sol.set("timeout", 3000)
+                            for h in o.hyps:
+                                sol.add(h)
+                            names = sorted(cs)
+                            rng.shuffle(names)
+                            kept = 0
+                            for nm in names:  # greedily: a value is kept only if the hypotheses still have a model with it
+                                fr = _Fr(rng.randint(1, 96), 97)
+                                sol.push()
+                                sol.add(cs[nm] == _z3.RealVal(f"{fr.numerator}/{fr.denominator}"))
+                                if sol.check() == _z3.sat:
+                                    kept += 1
+                                else:
+                                    sol.pop()
+                            sol.set("timeout", 20000)
+                            sol.add(_z3.Not(o.goal))
+                            if sol.check() == _z3.sat:
+                                o.status, o.model, o.backend = "failed", sol.model(), "z3 (goal's input constants fixed to generic values)"
+                                o.detail = (o.detail or "") + f"; counter-model found with {kept} of the goal's {len(cs)} real constants fixed (attempt {attempt + 1})"
+                                break
+                    except Exception:
+                        pass
             if tier == "thorough" and o.kind != "cover" and o.status == "discharged" and o.backend == "z3":
                 # second solver must agree
                 try:
